@@ -1188,6 +1188,10 @@ def build_model(
                 + '\n'.join('    {x}' for x in failed_execs)
             ) from e
 
+        # No individual symbol reproduces the error (e.g. a custom converter
+        # produced the invalid code): still an error, not a class to return
+        raise BuildError('Failed to `exec`ute the model class definition') from e
+
     # Otherwise, if here, assign the original code to an attribute and return
     # the class
     locals_['Model'].CODE = model_definition_string
